@@ -30,7 +30,7 @@ open Wire Pen PenShow Gen
     acclique <num_variables> | acloops <num_variables>
     fl <nodes> <edges> <cycles> <gauge>                    cycles: lab,lab,...@idx (planted) or ...@- separated by ';' ; gauge: lab=±1,... or -
     chim <m> <n> <t> <multiplier> <nodes|none> <edges> <draws>    draws: the recorded indices of choice((-1., 1.))
-    mimo <nt> <y> <F rows>  |  mimob <nr> <nt> <draws>
+    mimo <nt> <y> <F rows>  |  mimob <nr> <nt> <draws>  |  comp <nr> <nt> <attenuation rows> <draws>
 -/
 
 def kindOf? (s : String) : Option GateKind :=
@@ -294,6 +294,10 @@ def answer3 (line : String) : Option String :=
     match nt.toNat?, parseRats y, parseMatrix f with
     | some nt, some y, some f => match mimoBpsk nt y f with | some bag => showBag .spin bag | none => "err"
     | _, _, _ => "bad-op"
+  | ["comp", nr, nt, a, draws] => some <|
+    match nr.toNat?, nt.toNat?, parseMatrix a, parseNats draws with
+    | some nr, some nt, some a, some draws => match compBinary nr nt a draws with | some bag => showBag .spin bag | none => "err"
+    | _, _, _, _ => "bad-op"
   | ["mimob", nr, nt, draws] => some <|
     match nr.toNat?, nt.toNat?, parseNats draws with
     | some nr, some nt, some draws => match mimoBinary nr nt draws with | some bag => showBag .spin bag | none => "err"
